@@ -22,8 +22,52 @@ def collect_stores(F):
                 _scan_place(F, f, st["place"], "store", st["span"], out)
                 rv = st["rv"]
                 if rv["k"] in ("ref", "rawptr") and (rv.get("mut") or "Mut" in str(rv.get("kind", ""))):
+                    if not st["place"]["proj"] and not _may_write_through(f, st["place"]["local"], set()):
+                        continue  # a `&mut` that is only ever read through (e.g. `let Self { period, .. } = self;`)
                     _scan_place(F, f, rv["place"], "mutborrow", st["span"], out)
     return out
+
+
+def _may_write_through(f, local, seen):
+    """can the reference held in `local` be used to modify its referent?  True unless every use in the function is a read through
+    a dereference (or a reborrow that itself is only read through)."""
+    if local in seen:
+        return False
+    seen.add(local)
+
+    def is_ref_itself(o):
+        return o.get("k") in ("copy", "move") and o["place"]["local"] == local and not o["place"]["proj"]
+
+    def mentions_ref(o):
+        return o.get("k") in ("copy", "move") and o["place"]["local"] == local
+    for b in f.mir["blocks"]:
+        if b["cleanup"]:
+            continue
+        for st in b["stmts"]:
+            if st["k"] != "assign":
+                continue
+            pl = st["place"]
+            if pl["local"] == local and pl["proj"]:
+                return True  # (*r) = .. / (*r).f = ..
+            rv = st["rv"]
+            if rv["k"] in ("ref", "rawptr") and rv["place"]["local"] == local:
+                if (rv.get("mut") or "Mut" in str(rv.get("kind", ""))) and (pl["proj"] or _may_write_through(f, pl["local"], seen)):
+                    return True
+                continue
+            ops = [rv.get("op"), rv.get("a"), rv.get("b")] + list(rv.get("ops", []))
+            for o in ops:
+                if isinstance(o, dict) and is_ref_itself(o):
+                    # the reference is copied / moved into another place
+                    if pl["proj"] or _may_write_through(f, pl["local"], seen):
+                        return True
+        t = b["term"]
+        if t["k"] == "call":
+            for a in t["args"]:
+                if isinstance(a, dict) and is_ref_itself(a):
+                    return True
+        if t["k"] == "drop" and t["place"]["local"] == local and t["place"]["proj"]:
+            return True
+    return False
 
 
 def _scan_place(F, f, place, how, span, out):
